@@ -192,7 +192,7 @@ func init() {
 		NotDecided: []string{
 			"identifier tokens: Unicode ID_Start/ID_Continue classes and \\u escapes (only memory safety and progress are proved for consumeIdentifierToken)",
 			"numeric literals: the per-radix digit alphabets, separators and BigInt suffix (only the closed set of numeric token types is proved)",
-			"string and template literal grammar, template nesting via level/templateLevels (only the closed sets of result types are proved)",
+			"template nesting via level/templateLevels (which '}' resumes a template); for string and template tokens the extent is proved (first unescaped delimiter / '${' / raw line break, with line continuations) but not the validity of the escape sequences inside",
 			"RegExp(): character-class and escape tracking of consumeRegExpToken (memory safety and progress only)",
 			"the converse direction for keywords (an identifier whose text is a keyword spelling never gets IdentifierToken) follows from the exact Keywords table used in the encoding but is not stated as a clause",
 			"completeness: that every token sequence of the grammar is returned as exactly those tokens (an induction over token sequences); proved instead are the per-token clauses: canonical spelling of every operator, punctuator, reserved word and contextual keyword token, longest-match before '=', the '?.' digit look-ahead rule, CommentLineTerminatorToken iff the comment contains a line terminator",
